@@ -97,6 +97,11 @@ macro_rules! diag_impl {
                 0 => emit(&base, &fpp, vecs, out),
                 1 => emit(&base.to_generic_decoder_model(), &fpp, vecs, out),
                 2 => emit(&base.as_view(), &fpp, vecs, out),
+                4 => {
+                    // through the blanket impl for references: M = &Model
+                    let r = &base;
+                    emit(&r, &fpp, vecs, out)
+                }
                 _ => {
                     // UniformModel over `n` symbols: the case's table must be the uniform one
                     let u = UniformModel::<$prob, $p>::new(probs.len());
